@@ -6,7 +6,7 @@ ID = "C14"
 LEVEL = "exploration"
 TECHNIQUE = "complete enumeration of the five opcode tables, their service-action tables, the status table and all 256 opcode values against an independent T10 table"
 RULE = ("every named entry of spc/sbc/ssc/smc/mmc, every entry of every service-action table, every SCSI_STATUS entry, every pair "
-        "of sets sharing a name, every name of any set looked up on every set (refused, or the T10 value; tables unchanged afterwards), and init_cdb for each of the 256 opcode values, also carried by OpCode objects of every shipped name (and names of the 32-byte / variable-length commands) with the entry's own service-action table. Non-trivial = the oracle has its own T10 value "
+        "of sets sharing a name, every name of any set looked up on every set (refused, or the T10 value; tables unchanged afterwards), every table walked again after each assignment of another value or type to a public attribute (opcode, cdb, page_code, result, buffers) of a command built from each entry, and init_cdb for each of the 256 opcode values, also carried by OpCode objects of every shipped name (and names of the 32-byte / variable-length commands) with the entry's own service-action table. Non-trivial = the oracle has its own T10 value "
         "for the entry (or a length/refusal expectation for the opcode value); distinct = distinct (kind, set, name|value).")
 ASSUMPTIONS = [
     "oracle: vf/spec/opcodes.py transcribed from T10 op-num / SPC-4 / SBC-3 / SSC-4 / SMC-3 / MMC-6 / SAM-5 (cross-checked at setup against scsi/scsi.h and linux/cdrom.h)",
@@ -23,7 +23,7 @@ def _sets():
 
 
 def partitions(tier):
-    return [["tables"], ["init_cdb"], ["lookups"]]
+    return [["tables"], ["init_cdb"], ["lookups"], ["after_use"]]
 
 
 def t10_any(name):
@@ -97,8 +97,53 @@ def check_init(value, name="X", sa=None):
     return out
 
 
+AFTER_USE_WALKS = [0]
+
+
+def _after_use_values():
+    from pyscsi.pyscsi.scsi_opcode import OpCode
+    return [("opcode", 0x88), ("opcode", 0xFF), ("opcode", OpCode("X", 0x12, {"A": 1})), ("opcode", None), ("opcode", "28"), ("opcode", True),
+            ("cdb", bytearray(16)), ("cdb", b"\xff" * 6), ("page_code", 0x3F), ("result", {"opcode": 1}), ("datain", bytearray(4)), ("dataout", bytearray(4))]
+
+
+AFTER_USE = list(range(12))
+
+
+def check_after_use(name, st, key, i):
+    """the tables are shared by every command built from them: whatever a caller does with a command it built (assigning its public
+    attributes other values and other TYPES of values) must leave every table entry at its T10 value"""
+    from vf import cmdspace as CS
+    from vf.spec import cdb as S
+    E, sets = _sets()
+    attr, v = _after_use_values()[i]
+    op = CS.get_opcode(st, key)
+    try:
+        cmd = CS.get_class(name)(op, **CS.build_kwargs(name, CS.baseline(name), ata_blocksize=512 if name in S.ATA_LBA_BYTES else None))
+        setattr(cmd, attr, v)
+    except Exception:   # noqa: BLE001 - refusing the assignment is fine
+        pass
+    where = "after %s(%s.%s).%s = %r" % (name, st, key, attr, v)
+    for s_ in SETS:
+        for k in sets[s_].keys:
+            want = {T.t10_value(s_, k)} - {None} or t10_any(k)
+            if not want:
+                continue
+            o = getattr(sets[s_], k)
+            AFTER_USE_WALKS[0] += 1
+            if getattr(o, "value", None) not in want:
+                return [("after_use/table_value/%s.%s" % (s_, k), "%s: %s.%s is now %r, T10 assigns %s"
+                         % (where, s_, k, getattr(o, "value", None), sorted("%#04x" % x for x in want)))]
+            for sakey in o.serviceaction.keys:
+                wsa = T.SA_ALL.get(sakey)
+                if wsa is not None and getattr(o.serviceaction, sakey) not in wsa:
+                    return [("after_use/serviceaction/%s.%s.%s" % (s_, k, sakey), "%s: service action is now %r" % (where, getattr(o.serviceaction, sakey)))]
+    return []
+
+
 def run_case(case):
     kind = case[0]
+    if kind == "after_use":
+        return check_after_use(*case[1:])
     if kind == "op":
         return check_entry(case[1], case[2])[0]
     if kind == "sa":
@@ -179,6 +224,24 @@ def run_partition(part, tier, seed):
                     if v not in want:
                         acc.violation("lookup/table_value_after_use/%s.%s" % (s, key), "after the lookups %s.%s = %#04x, T10 assigns %s"
                                       % (s, key, v, sorted("%#04x" % x for x in want)), ["op", s, key])
+        return acc
+    if part[0] == "after_use":
+        from vf import cmdspace as CS
+        from vf.spec import cdb as S
+        for name, c in sorted(S.CLASSES.items()):
+            for st, key in c["tables"]:
+                if CS.get_opcode(st, key) is None:
+                    continue
+                for i in range(len(AFTER_USE)):
+                    case = ["after_use", name, st, key, i]
+                    acc.case(case, nontrivial=True, key=repr(case))
+                    v = run_case(case)
+                    for kk, w in v:
+                        acc.violation(kk, w, case)
+                    acc.outcome((repr(case), not v))
+                    if v:
+                        return acc          # the tables are damaged: everything after this would only repeat it
+        acc.evaluations += AFTER_USE_WALKS[0]
         return acc
     if part[0] == "init_cdb":
         for v in range(256):
